@@ -101,8 +101,21 @@ def run(K, pid, tier, seed, deadline, t_start):
     alljobs = jobs + api_jobs
     with cf.ThreadPoolExecutor(K.NCPU) as ex:
         list(ex.map(lambda j: K.build_and_run(j, tier, seed, timeout, deadline), alljobs))
+    # ladder evaluator: do the configuration tiers activate every preprocessor arm that some closed set can reach?
+    arms_info = {}
+    try:
+        import arms as A
+        tree = A.parse_tree(os.path.join(C.INC, "avel"))
+        reach = A.reachable(tree)
+        q = A.covered(tree, C.quick_configs(scalar=True))
+        t = A.covered(tree, C.thorough_configs())
+        arms_info = {"arms_guarded": sum(1 for a in tree if a.avel), "arms_reachable_x86_gcc": len(reach),
+                     "arms_covered_by_quick_tier": len(q & set(reach)), "arms_covered_by_thorough_tier": len(t & set(reach)),
+                     "arms_not_in_quick_tier": sorted(set(reach) - q)[:50]}
+    except Exception as e:  # the evaluator is an auditing aid, never a verdict
+        arms_info = {"arms_error": str(e)}
     # every compiled configuration is an explored state even when it produces no per-operation statistics
     n_ok = sum(1 for j in jobs if j.build_ok)
     extra = {"programs": len(alljobs), "configurations_compiled": len(jobs), "configurations_ok": n_ok, "closed_sets_total": len(C.all_closed_sets()),
-             "c19": info, "states_override": len(alljobs)}
+             "c19": info, "states_override": len(alljobs), "ladder_arms": arms_info}
     return K.finish(pid, tier, seed, alljobs, [{"tu": "t_types", "configs": len(jobs)}, {"tu": "t_api", "configs": len(api_cfgs)}], t_start, deadline, extra_cov=extra)
